@@ -3,14 +3,16 @@ import multiprocessing as mp
 import os
 
 
-def pmap(func, items, procs=None, chunk=None):
+def pmap(func, items, procs=None, chunk=None, force=False):
     items = list(items)
     if not items:
         return []
     procs = procs or min(16, os.cpu_count() or 4)
-    if len(items) < 64 or procs <= 1:
+    if (len(items) < 64 and not force) or procs <= 1:
         return [func(x) for x in items]
     chunk = chunk or max(1, min(500, len(items) // (procs * 4)))
+    if force:
+        chunk = 1
     ctx = mp.get_context("fork")
     with ctx.Pool(procs) as pool:
         return pool.map(func, items, chunksize=chunk)
